@@ -1,4 +1,5 @@
-import ProductMD.Proofs.TreeInfoText
+import ProductMD.Proofs.TextOKDecide
+import ProductMD.Proofs.TreeInfoAligned
 import ProductMD.Proofs.TreeInfoDecEq
 import ProductMD.Model.TreeInfoText
 import ProductMD.Model.DiscInfo
@@ -52,8 +53,8 @@ theorem C04_no_default (t : TreeInfo) (mv : Option Str) (d : Ini) (h : serialize
 * `hts`/`hfl` — integer build timestamp that survives `int(float(str n))` (true for `|n| ≤ 2^53`; beyond: F17);
 * `hplat`, `huok` — platform names and UIDs are non-empty and free of `,` (they travel in comma-separated options: a name
   with a comma is not representable in the file syntax);
-* `hnd`, `hkid` — UIDs are pairwise distinct in the forest, sibling ids distinct (a UID identifies a variant; the second
-  follows from the first by the validated UID alignment and is kept explicit);
+* `hnd` — UIDs are pairwise distinct in the forest (a UID identifies a variant; that sibling ids are then distinct too is
+  derived from the UID alignment the generated validator enforces: `kidIds_of_valid`);
 * `htop` — no top-level variant of type `addon` (F24);
 * `hcs` — checksum paths are dictionary keys, type and value free of `:` (the `type:value` syntax);
 * `himg` — image names are dictionary keys; no platform with images is called `<x>-<tree arch>` (F25);
@@ -62,31 +63,32 @@ theorem C04_no_default (t : TreeInfo) (mv : Option Str) (d : Ini) (h : serialize
 theorem C04_tree_readback (fo : FloatOracle) (t : TreeInfo) (mv : Option Str) (d : Ini) (n : Int)
     (h : serialize t mv = .ok d)
     (hts : t.tree.ts = .int n) (hfl : fo.intOfFloatStr (Str.intStr n) = .ok n)
-    (hplat : PlatformsOK t.tree) (huok : UidsOK t.variants) (hnd : UidsNodup t.variants) (hkid : KidIdsNodup t.variants)
+    (hplat : PlatformsOK t.tree) (huok : UidsOK t.variants) (hnd : UidsNodup t.variants) 
     (htop : TopNotAddon t.variants) (hcs : ChecksumsOK t.checksums) (himg : ImagesOK t.tree.arch t.images)
     (hv : ReadValid (norm t)) :
     deserialize fo d = .ok (norm t) := by
   obtain ⟨n0, key, chosen, w⟩ := serialize_spec h
-  exact readback_of_view fo t mv d d n n0 key chosen w (serialize_valid h) w.view hts hfl hplat ⟨huok, hnd, hkid, htop⟩ hcs himg
+  exact readback_of_view fo t mv d d n n0 key chosen w (serialize_valid h) w.view hts hfl hplat ⟨huok, hnd, kidIds_of_valid (serialize_valid h).forest hnd, htop⟩ hcs himg
     (fun _ => trivial) (fun _ _ => trivial) hv
 
 /-- **C04, trees in normal form: the cycle is the identity**, and the second dump produces the same document. -/
 theorem C04_tree_fixpoint (fo : FloatOracle) (t : TreeInfo) (mv : Option Str) (d : Ini) (n : Int)
     (h : serialize t mv = .ok d) (hnorm : norm t = t)
     (hts : t.tree.ts = .int n) (hfl : fo.intOfFloatStr (Str.intStr n) = .ok n)
-    (hplat : PlatformsOK t.tree) (huok : UidsOK t.variants) (hnd : UidsNodup t.variants) (hkid : KidIdsNodup t.variants)
+    (hplat : PlatformsOK t.tree) (huok : UidsOK t.variants) (hnd : UidsNodup t.variants) 
     (htop : TopNotAddon t.variants) (hcs : ChecksumsOK t.checksums) (himg : ImagesOK t.tree.arch t.images) :
     deserialize fo d = .ok t ∧ (deserialize fo d).bind (serialize · mv) = .ok d := by
   have hv : ReadValid (norm t) := by rw [hnorm]; exact readValid_of_normal (serialize_valid h) hnorm
-  have := C04_tree_readback fo t mv d n h hts hfl hplat huok hnd hkid htop hcs himg hv
+  have := C04_tree_readback fo t mv d n h hts hfl hplat huok hnd htop hcs himg hv
   rw [hnorm] at this
   exact ⟨this, by rw [this]; exact h⟩
 
-/-- the written document can travel as text: no line feed anywhere, and what the reader is to return — the sorted
-document without the comment-named options — is representable (single-line values and option names without outer
-blanks, names free of `=`/`:` and not starting with `#`, `;`, `[`) -/
-def TextOK (sp : Char → Bool) (d : Ini) : Prop :=
-  IniParse.NoNewlines (IniText.canon d) ∧ IniParse.Representable sp (readDoc d)
+/-- `TextOK sp d` (`Proofs/TextOKDecide.lean`): the written document can travel as text — no line feed anywhere, and what the
+reader is to return (the sorted document without the comment-named options) is representable: single-line values and
+option names without outer blanks, names free of `=`/`:` and not starting with `#`, `;`, `[`.  For CPython's blank
+predicate it follows from the Boolean criterion the driver evaluates on every case: -/
+theorem C04_textOK_criterion (d : Ini) (h : IniText.Representable d = true) : TextOK Str.isPySpace d :=
+  textOK_of_representable d h
 
 /-- **C04, trees, through the text.**  Beyond `C04_tree_readback`: `sp` is the blank predicate of `str.strip()` with
 the five facts of `SpOK` and `#`, `;` not blank; the written document satisfies `TextOK`; checksum paths and image names
@@ -97,7 +99,7 @@ theorem C04_tree_text (sp : Char → Bool) (hsp : IniParse.SpOK sp) (hh : sp '#'
     (htext : ∀ d, serialize t mv = .ok d → TextOK sp d)
     (hck : ∀ c ∈ t.checksums, nc c.1 = true) (himn : ∀ p ∈ t.images, ∀ kv ∈ p.2, nc kv.1 = true)
     (hts : t.tree.ts = .int n) (hfl : fo.intOfFloatStr (Str.intStr n) = .ok n)
-    (hplat : PlatformsOK t.tree) (huok : UidsOK t.variants) (hnd : UidsNodup t.variants) (hkid : KidIdsNodup t.variants)
+    (hplat : PlatformsOK t.tree) (huok : UidsOK t.variants) (hnd : UidsNodup t.variants) 
     (htop : TopNotAddon t.variants) (hcs : ChecksumsOK t.checksums) (himg : ImagesOK t.tree.arch t.images)
     (hv : ReadValid (norm t)) :
     loads sp fo text = .ok (norm t) := by
@@ -118,7 +120,7 @@ theorem C04_tree_text (sp : Char → Bool) (hsp : IniParse.SpOK sp) (hh : sp '#'
     rw [hparse]
     show deserialize fo (readDoc d) = .ok (norm t)
     refine readback_of_view fo t mv d (readDoc d) n n0 key chosen w (serialize_valid hser) (view_readDoc w.view) hts hfl hplat
-      ⟨huok, hnd, hkid, htop⟩ hcs himg ?_ ?_ hv
+      ⟨huok, hnd, kidIds_of_valid (serialize_valid hser).forest hnd, htop⟩ hcs himg ?_ ?_ hv
     · intro _ kv hkv
       rw [checksumOpts_eq _ hcs.1] at hkv
       obtain ⟨c, hc, rfl⟩ := List.mem_map.mp hkv
@@ -134,7 +136,7 @@ theorem C04_tree_bytes (sp : Char → Bool) (hsp : IniParse.SpOK sp) (hh : sp '#
     (htext : ∀ d, serialize t mv = .ok d → TextOK sp d)
     (hck : ∀ c ∈ t.checksums, nc c.1 = true) (himn : ∀ p ∈ t.images, ∀ kv ∈ p.2, nc kv.1 = true)
     (hts : t.tree.ts = .int n) (hfl : fo.intOfFloatStr (Str.intStr n) = .ok n)
-    (hplat : PlatformsOK t.tree) (huok : UidsOK t.variants) (hnd : UidsNodup t.variants) (hkid : KidIdsNodup t.variants)
+    (hplat : PlatformsOK t.tree) (huok : UidsOK t.variants) (hnd : UidsNodup t.variants) 
     (htop : TopNotAddon t.variants) (hcs : ChecksumsOK t.checksums) (himg : ImagesOK t.tree.arch t.images) :
     loads sp fo text = .ok t ∧ (loads sp fo text).bind (dumps · mv) = .ok text := by
   have hser : ∃ d, serialize t mv = .ok d := by
@@ -144,9 +146,21 @@ theorem C04_tree_bytes (sp : Char → Bool) (hsp : IniParse.SpOK sp) (hh : sp '#
     | ok d => exact ⟨d, rfl⟩
   obtain ⟨d, hd⟩ := hser
   have hv : ReadValid (norm t) := by rw [hnorm]; exact readValid_of_normal (serialize_valid hd) hnorm
-  have := C04_tree_text sp hsp hh hs fo t mv text n h htext hck himn hts hfl hplat huok hnd hkid htop hcs himg hv
+  have := C04_tree_text sp hsp hh hs fo t mv text n h htext hck himn hts hfl hplat huok hnd htop hcs himg hv
   rw [hnorm] at this
   exact ⟨this, by rw [this]; exact h⟩
+
+/-- `C04_tree_bytes` for CPython's `str.isspace`, with the decidable representability criterion -/
+theorem C04_tree_bytes_py (fo : FloatOracle) (t : TreeInfo) (mv : Option Str) (text : Str) (n : Int)
+    (h : dumps t mv = .ok text) (hnorm : norm t = t)
+    (hrep : ∀ d, serialize t mv = .ok d → IniText.Representable d = true)
+    (hck : ∀ c ∈ t.checksums, nc c.1 = true) (himn : ∀ p ∈ t.images, ∀ kv ∈ p.2, nc kv.1 = true)
+    (hts : t.tree.ts = .int n) (hfl : fo.intOfFloatStr (Str.intStr n) = .ok n)
+    (hplat : PlatformsOK t.tree) (huok : UidsOK t.variants) (hnd : UidsNodup t.variants) 
+    (htop : TopNotAddon t.variants) (hcs : ChecksumsOK t.checksums) (himg : ImagesOK t.tree.arch t.images) :
+    loads Str.isPySpace fo text = .ok t ∧ (loads Str.isPySpace fo text).bind (dumps · mv) = .ok text :=
+  C04_tree_bytes Str.isPySpace spOK_py py_hash py_semi fo t mv text n h hnorm
+    (fun d hd => textOK_of_representable d (hrep d hd)) hck himn hts hfl hplat huok hnd htop hcs himg
 
 /-! ### non-vacuity: a layered tree with a dashed top-level UID, three levels, children of all three types -/
 
@@ -176,9 +190,13 @@ example : norm C04_exTree0 ≠ C04_exTree0 ∧ norm C04_exTree = C04_exTree := b
 example : (serialize C04_exTree none).toBool = true ∧ (serialize C04_exTree0 none).toBool = true := by decide +kernel
 /-- every hypothesis of `C04_tree_readback` / `C04_tree_fixpoint` holds of the example -/
 example : C04_exTree.tree.ts = .int 1417653911 ∧ C04_fo.intOfFloatStr (Str.intStr 1417653911) = .ok 1417653911 ∧
-    PlatformsOK C04_exTree.tree ∧ UidsOK C04_exTree.variants ∧ UidsNodup C04_exTree.variants ∧ KidIdsNodup C04_exTree.variants ∧
+    PlatformsOK C04_exTree.tree ∧ UidsOK C04_exTree.variants ∧ UidsNodup C04_exTree.variants ∧
     TopNotAddon C04_exTree.variants ∧ ChecksumsOK C04_exTree.checksums ∧ ImagesOK C04_exTree.tree.arch C04_exTree.images := by
   decide +kernel
+/-- the text-level hypotheses hold too: the written document meets the representability criterion, no checksum path or
+image name is comment-like -/
+example : (serialize C04_exTree none).toOption.map IniText.Representable = some true ∧
+    (∀ c ∈ C04_exTree.checksums, nc c.1 = true) ∧ (∀ p ∈ C04_exTree.images, ∀ kv ∈ p.2, nc kv.1 = true) := by decide +kernel
 /-- …and the conclusion, evaluated: reading the written document gives the tree back; for the un-normalised tree its normal form -/
 example : (serialize C04_exTree none).toOption.map (deserialize C04_fo) = some (.ok C04_exTree) := by decide +kernel
 example : (serialize C04_exTree0 none).toOption.map (deserialize C04_fo) = some (.ok (norm C04_exTree0)) := by decide +kernel
